@@ -1457,7 +1457,7 @@ def adapt_classes_any(val, serialize, instantiate_classes, sub_add_kwargs):
     if is_subclass_spec(val):
         orig_val = val
         val = subclass_spec_as_namespace(val)
-        init_args = val.get("init_args")
+        init_args = recreate_branches(val.get("init_args"))
         if init_args and not instantiate_classes:
             for subkey, subval in init_args.__dict__.items():
                 init_args[subkey] = adapt_classes_any(subval, serialize, instantiate_classes, sub_add_kwargs)
